@@ -22,7 +22,7 @@ pub fn meta() -> PropertyMeta {
     PropertyMeta {
         id: "C11",
         level: "fault_enumeration",
-        rule: "generated messages (1..5 units, commands and queries with 1..5 response data incl. blocks and multi-digit numbers, typed parameter pulls of every conversion, occasionally an injected handler error) are executed with a growable Vec<u8> buffer and with ArrayVec<u8, CAP> for EVERY capacity from 0 to the response length + 2 (max 192): if the response fits the bytes must be identical, otherwise the result must be -225 with at most CAP bytes written, never a panic; a failing message must fail identically. Separately the message is executed with allocation-free handlers and device under a counting global allocator: zero allocation calls are allowed between entering and leaving Node::run. Added (fixed cases at every capacity): 2^16 +- 1 data elements in one response unit, blocks of 10^k +- 1 bytes up to 10^7. Non-trivial: a (message, capacity) pair with 0 < CAP < response length; evaluations count every execution.",
+        rule: "generated messages (1..5 units, commands and queries with 1..5 response data incl. blocks and multi-digit numbers, typed parameter pulls of every conversion, occasionally an injected handler error) are executed with a growable Vec<u8> buffer and with ArrayVec<u8, CAP> for EVERY capacity from 0 to the response length + 2 (max 192): if the response fits the bytes must be identical, otherwise the result must be -225 with at most CAP bytes written, never a panic; a failing message must fail identically. Separately the message is executed with allocation-free handlers and device under a counting global allocator: zero allocation calls are allowed between entering and leaving Node::run. Added (fixed cases at every capacity): 2^16 +- 1 data elements in one response unit, blocks of 10^k +- 1 bytes up to 10^7, lists handed over as one datum (ArrayVec of character data, empty items included); query handlers that call finish() an extra time and ignore its result; the mandated 488.2 / SCPI queries (22 messages x 4 preludes that fill the error queue) on both minimal SCPI devices (one with identification fields longer than 72 characters) at EVERY capacity, allocation-counted. Non-trivial: a (message, capacity) pair with 0 < CAP < response length; evaluations count every execution.",
         assumptions: &["capacities up to 192 bytes", "the allocation claim covers the explored messages, conversions and response kinds; handlers and device used for it are allocation-free by construction (fixed arrays)"],
         run,
     }
